@@ -211,7 +211,9 @@ def inst_list_op(H, l, op, n, use=('sgn',)):
     secint = mpc.SecInt(l); H.register_field(secint.field); p = secint.field.modulus
     install_l5_stubs(H, use)
     small = op in ('prod',)
-    lo, hi = (-2, 3) if small else rng(l - 1) if op in ('min', 'max', 'argmin', 'argmax', 'min_max', 'sorted', 'sorted_rev') else rng(l)
+    keyed = op.endswith(('_neg', '_sq'))
+    lo, hi = (-2, 3) if small else rng(l - 1) if (keyed or op in ('min', 'max', 'argmin', 'argmax', 'min_max', 'sorted', 'sorted_rev')) else rng(l)
+    if op.endswith('_sq'): lo, hi = -3, 4
     If = z3.If
 
     def build():
@@ -233,6 +235,17 @@ def inst_list_op(H, l, op, n, use=('sgn',)):
         elif op == 'argmax': z = list(mpc.argmax(xs))
         elif op == 'sorted': z = mpc.sorted(xs)
         elif op == 'sorted_rev': z = mpc.sorted(xs, reverse=True)
+        elif keyed:
+            # key functions (C29 quantifies over keys): negation (order reversed) and squaring (not monotone, ties between a and -a)
+            key = (lambda a: -a) if op.endswith('_neg') else (lambda a: a * a)
+            base = op.rsplit('_', 1)[0]
+            if base == 'min': z = mpc.min(xs, key=key)
+            elif base == 'max': z = mpc.max(xs, key=key)
+            elif base == 'min_max': z = list(mpc.min_max(xs, key=key))
+            elif base == 'argmin': z = list(mpc.argmin(xs, key=key))
+            elif base == 'argmax': z = list(mpc.argmax(xs, key=key))
+            elif base == 'sorted': z = mpc.sorted(xs, key=key)
+            else: raise KeyError(op)
         else: raise KeyError(op)
         if max_deg(z) > H.tv:
             raise GhostViolation('result-degree', f'{op} returns a sharing of degree {max_deg(z)} > t')
@@ -270,6 +283,30 @@ def inst_list_op(H, l, op, n, use=('sgn',)):
             first = z3.IntVal(n - 1)
             for i in range(n - 2, -1, -1): first = If(ts[i] == ext, i, first)
             return [(op + '-index-of-first', eq(o[0], first)), (op + '-value', eq(o[1], ext))]
+        if keyed:
+            base = op.rsplit('_', 1)[0]
+            kf = (lambda t: -t) if op.endswith('_neg') else (lambda t: t * t)
+            ks = [kf(t) for t in ts]
+            kmin, kmax = zmin(ks), zmax(ks)
+            member = lambda val: z3.Or(*[eq(val, t) for t in ts])
+            sval = lambda val: signed_formula(val, p)
+            if base in ('min', 'max'):
+                return [(op + '-is-an-element', member(o)), (op + '-key-extreme', kf(sval(o)) == (kmin if base == 'min' else kmax))]
+            if base == 'min_max':
+                return [(op + '-elements', z3.And(member(o[0]), member(o[1]))), (op + '-min-key', kf(sval(o[0])) == kmin), (op + '-max-key', kf(sval(o[1])) == kmax)]
+            if base in ('argmin', 'argmax'):
+                ext = kmin if base == 'argmin' else kmax
+                first = z3.IntVal(n - 1)
+                for i in range(n - 2, -1, -1): first = If(ks[i] == ext, i, first)
+                sel = ts[n - 1]
+                for i in range(n - 2, -1, -1): sel = If(first == i, ts[i], sel)
+                return [(op + '-index-of-first', eq(o[0], first)), (op + '-value', eq(o[1], sel))]
+            if base == 'sorted':
+                os_ = [sval(v) for v in o]
+                goals = [(f'{op}-ordered-{i}', kf(os_[i]) <= kf(os_[i + 1])) for i in range(n - 1)]
+                for i in range(n):
+                    goals.append((f'{op}-perm-{i}', z3.Sum([If(t == ts[i], 1, 0) for t in ts]) == z3.Sum([If(s_ == ts[i], 1, 0) for s_ in os_])))
+                return goals
         if op in ('sorted', 'sorted_rev'):
             os_ = [signed_formula(v, p) for v in o]
             goals = []
